@@ -119,7 +119,7 @@ CHECKS["C06"] = dict(
 CHECKS["C16"] = dict(
     category="exploration",
     technique="exhaustive input enumeration (IX) of SOCKS5 greetings/requests and forced TCP fragmentations through the real front-end, Client, TLS, Server and handler on loopback (LX), against a reference SOCKS5 model",
-    text="Versions {0,4,5,6,255} x every method list of length <= 3 over {00,01,02,80,ff} (+ 255-long lists with 00 first / last / absent); every command byte 0..=255; reserved byte, request version, address types {0,1,2,3,4,5,255}, domain lengths {0,1,255}, unresolvable / invalid names, ::1, a refusing port; every truncation of the request; the canonical IPv4 and domain exchanges and 8 multi-method greetings under every single forced TCP cut and byte-at-a-time. Reference: 05 00 iff version 5 and 00 offered, otherwise refusal; a tunnel (echo through the requested target, nothing at any other target) iff CONNECT with a valid address to an accepting target, and 'succeeded' only then; failures are a non-zero reply or a close and end only that connection (a canonical request afterwards still succeeds). The canonical IPv4 / domain / IPv6 exchanges also under every single cut with 31 / 301 s of silence between the pieces (clock jump on a current-thread runtime). Replies are parsed by their address type: exactly one reply per request, well-formed for IPv4 / IPv6 / odd domain names; failing CONNECTs with early data; early data cut around the hand-over to the tunnel. Targets that speak first (a banner of 1 / 64 / 5 000 / 70 000 bytes sent the instant they are connected), with and without early client bytes: the reply comes first and whole, then exactly the banner, then the echo.",
+    text="Versions {0,4,5,6,255} x every method list of length <= 3 over {00,01,02,80,ff} (+ 255-long lists with 00 first / last / absent); every command byte 0..=255; reserved byte, request version, address types {0,1,2,3,4,5,255}, domain lengths {0,1,255}, unresolvable / invalid names, ::1, a refusing port; every truncation of the request; the canonical IPv4 and domain exchanges and 8 multi-method greetings under every single forced TCP cut and byte-at-a-time. Reference: 05 00 iff version 5 and 00 offered, otherwise refusal; a tunnel (echo through the requested target, nothing at any other target) iff CONNECT with a valid address to an accepting target, and 'succeeded' only then; failures are a non-zero reply or a close and end only that connection (a canonical request afterwards still succeeds). The canonical IPv4 / domain / IPv6 exchanges also under every single cut with 31 / 301 s of silence between the pieces (clock jump on a current-thread runtime). Replies are parsed by their address type: exactly one reply per request, well-formed for IPv4 / IPv6 / odd domain names; failing CONNECTs with early data; early data cut around the hand-over to the tunnel. Targets that speak first (a banner of 1 / 64 / 5 000 / 70 000 bytes sent the instant they are connected), with and without early client bytes: the reply comes first and whole, then exactly the banner, then the echo. Upstream faults: the client's transport broken from write call #k on, for every k of an exchange with early data (real front-end, real Client over the in-memory dialer seam, echoing scripted target): exactly one reply, and after 'succeeded' only bytes the target sent.",
     note="Trusted: harness echo targets on 127.0.0.1 / 127.0.0.2 / ::1 and a reserved refusing port; fragmentation forced by waiting for the front-end's receive queue to drain (/proc/net/tcp); real time, timing-independent oracle (waits exceed every documented timeout).",
     design="DESIGN.md §6 C16",
 )
@@ -127,7 +127,7 @@ CHECKS["C16"] = dict(
 CHECKS["C17"] = dict(
     category="exploration",
     technique="exhaustive input enumeration (IX) of the real HTTP request parser/rewriter against an independent reference resolver, plus boundary and ordering cases through the real front-end over loopback (LX)",
-    text="~10^5 (thorough ~3x10^5) generated proxy requests: {GET,POST,PUT,OPTIONS,CONNECT} x target forms {origin, '*', absolute http/https with and without path/query, authority} x 5 host spellings (names in two cases, IPv4, two bracketed IPv6) x ports {none,80,443,8080,65535} x Host header {absent, 4 letter-case spellings with/without space, differing from the URI} at every position among 0-2 other headers (duplicates, a name that merely starts with 'host') x versions x body prefixes; oracle: tunnel authority, CONNECT flag, forwarded request line, other headers in order, exactly one Host line at the original position (or appended) denoting the same authority, body prefix intact. LX: header blocks of 65000 / 65536 / 65537 bytes with body bytes in the same or a later segment and forced first-segment sizes, CONNECT '200' only with a tunnel, early bytes after a CONNECT header exactly once, refusing target, origin-form forwarding per Host spelling. LX also: body bytes exactly once for headers near 65535 bytes, terminator straddling read boundaries, requests arriving in two pieces with 31 / 301 s of silence. CONNECT to targets that speak first (banner of 1 .. 70 000 bytes on connect), with and without early client bytes: the 200 reply first and whole, then exactly the banner, then the echo.",
+    text="~10^5 (thorough ~3x10^5) generated proxy requests: {GET,POST,PUT,OPTIONS,CONNECT} x target forms {origin, '*', absolute http/https with and without path/query, authority} x 5 host spellings (names in two cases, IPv4, two bracketed IPv6) x ports {none,80,443,8080,65535} x Host header {absent, 4 letter-case spellings with/without space, differing from the URI} at every position among 0-2 other headers (duplicates, a name that merely starts with 'host') x versions x body prefixes; oracle: tunnel authority, CONNECT flag, forwarded request line, other headers in order, exactly one Host line at the original position (or appended) denoting the same authority, body prefix intact. LX: header blocks of 65000 / 65536 / 65537 bytes with body bytes in the same or a later segment and forced first-segment sizes, CONNECT '200' only with a tunnel, early bytes after a CONNECT header exactly once, refusing target, origin-form forwarding per Host spelling. LX also: body bytes exactly once for headers near 65535 bytes, terminator straddling read boundaries, requests arriving in two pieces with 31 / 301 s of silence. CONNECT to targets that speak first (banner of 1 .. 70 000 bytes on connect), with and without early client bytes: the 200 reply first and whole, then exactly the banner, then the echo. Upstream FAULTS: the real front-end on a loopback listener with the real Client over the in-memory dialer seam and an echoing scripted origin, the client's transport broken from write call #k on for every k of a CONNECT and of a POST exchange: the application receives a failure answer alone, or a success answer followed only by bytes the origin sent.",
     note="Trusted: reference resolver written from RFC 7230 section 5; H8 wrappers expose the private functions unchanged; LX in real time with forced TCP cuts.",
     design="DESIGN.md §6 C17",
 )
